@@ -59,4 +59,7 @@ package phyloxml
 //@ func io/phyloxml.writeClade
 //@   flag noframe
 //@   requires n != nil && allocated(n) && buf != nil && INV12()
+//@   call fmt.Sprintf [values_are_written_through_their_exact_string_forms] (a0 == "%s<name>%s</name>\n" || a0 == "%s<branch_length>%s</branch_length>\n" || a0 == "%s<confidence type=\"bootstrap\">%s</confidence>\n") && len(a1) == 2
+//@   call (*tree.Edge).LengthString [the_length_of_the_branch_leading_to_the_node] a0 == e && e.length != -1.0
+//@   call (*tree.Edge).SupportString [the_support_of_the_branch_leading_to_an_inner_node] a0 == e && e.support != -1.0 && len(n.neigh) != 1
 //@   call io/phyloxml.writeClade [every_other_neighbour_is_written_one_level_deeper_with_the_branch_leading_to_it] a0 == child && child != prev && a1 == n && a2 == nextedge && nextedge == n.br[rangeindex + 1] && a3 == buf && a4 == level + 1
